@@ -16,6 +16,7 @@ the executor (a possibly-zero divisor is a ZeroDivisionError path there).
 from __future__ import annotations
 
 import itertools
+import re
 
 INT, BOOL, STR = "Int", "Bool", "String"
 
@@ -617,7 +618,7 @@ def _q(s):
 
 
 def _name(n):
-    return "|%s|" % n if any(c in n for c in "!#@$ ") else n
+    return n if re.match(r"^[A-Za-z_][A-Za-z0-9_.]*$", n) else "|%s|" % n
 
 
 class Printer(object):
@@ -702,6 +703,10 @@ def mod_axioms(x, n, q, r):
                 implies(
                     and_(le(mul(I(2), n), x), lt(x, mul(I(3), n))),
                     and_(eq(r, sub(x, mul(I(2), n))), eq(q, I(2))),
+                ),
+                implies(
+                    and_(le(sub(I(0), mul(I(2), n)), x), lt(x, sub(I(0), n))),
+                    and_(eq(r, add(x, mul(I(2), n))), eq(q, I(-2))),
                 ),
             ),
         )
